@@ -12,6 +12,8 @@ def prop(id, level, technique, text, note, design):
     P[id] = dict(level=level, technique=technique, text=text, note=note, design=design)
 
 exec(open('tools/manifest_table.py').read())
+for _id, _t in EXTRA.items():
+    P[_id]['text'] += _t
 
 checks=[]; na=[]
 for i in range(1,21):
